@@ -196,6 +196,9 @@ instance : HMul (SM α) (SV α) (SV α) := ⟨mulVec⟩
 attribute [alg] zero one add sub smul mul transpose mulVec tmulVec outer
 end SM
 
+def SV.toList {α : Type} (x : SV α) : List α := [x.w.x, x.w.y, x.w.z, x.v.x, x.v.y, x.v.z]
+def V3.toList {α : Type} (x : V3 α) : List α := [x.x, x.y, x.z]
+
 /-- Dynamic vectors (`VectorNd`) are total functions of the index; sizes are carried separately. -/
 abbrev VecN (α : Type) := Nat → α
 /-- Dynamic matrices (`MatrixNd`). -/
